@@ -36,7 +36,7 @@ P.verify(fn(
     returns=List(STR),
     hints={('empty_list', 'included'): STR},
     requires=[('priority_tuple', "self.SortPriority == ('iteration', 'iteration_error', 'iteration_abs_change', 'k', 't')")],
-    loops={0: LoopSpec(header='for x in self.SortPriority', index='p', modifies=['len', 'el.S'], invariants=[
+    loops={0: LoopSpec(header='for x in self.SortPriority', index='p', modifies=['len.S', 'el.S'], invariants=[
         ('bounds', '0 <= p and p <= 5'),
         ('locals_fresh', 'fresh(included) and fresh(serlist) and included is not serlist'),
         ('frame', 'lists_unchanged() and dicts_unchanged()', ['bounds', 'locals_fresh']),
@@ -112,7 +112,7 @@ P.verify(fn(
               ('stored_series_allocated', 'all(implies(has(self, s), allocated(self[s])) for s in strings())')],
     hints={('empty_list', 'row'): FLOAT},
     loops={
-        0: LoopSpec(header='for i in range(0, N)', index='ri', modifies=['len', 'el.*'], ghost={'hdr': 'snap(varz)'}, invariants=[
+        0: LoopSpec(header='for i in range(0, N)', index='ri', modifies=['len.*', 'el.*'], ghost={'hdr': 'snap(varz)'}, invariants=[
             ('bounds', '0 <= ri and ri <= N'),
             ('frame', 'lists_unchanged() and dicts_unchanged()'),
             ('header_kept', 'fresh(varz) and seq_eq(varz, hdr)'),
@@ -120,7 +120,7 @@ P.verify(fn(
             ('header_names_stored', 'all(has(self, hdr[j]) for j in range(0, len(hdr)))'),
             ('N_at_most_every_length', 'all(N <= old(len(self[hdr[j]])) for j in range(0, len(hdr)))'),
         ]),
-        1: LoopSpec(header='for v in varz', index='cj', modifies=['len', 'el.*'], invariants=[
+        1: LoopSpec(header='for v in varz', index='cj', modifies=['len.*', 'el.*'], invariants=[
             ('bounds', '0 <= cj and cj <= len(hdr)'),
             ('frame', 'lists_unchanged() and dicts_unchanged()'),
             ('header_kept', 'fresh(varz) and seq_eq(varz, hdr)'),
